@@ -229,6 +229,48 @@ def gen(tla, cfg, wd, workers=8, timeout=900, simulate=None, seed=0, heap="8g"):
     return cases, stats(out)
 
 
+def gen_stream(tla, cfg, wd, out_path, workers=8, timeout=900, heap="8g"):
+    """Like gen(), for generators with millions of cases: the REPLAY lines are streamed from TLC's output
+    file into `out_path` (NDJSON) without being held in memory.  Returns (number of cases, stats)."""
+    java = ["java", "-XX:+UseParallelGC", f"-Xmx{heap}", f"-Djava.io.tmpdir={os.path.join(wd, 'tmp')}", f"-DTLA-Library={SPEC}"]
+    md = os.path.join(wd, "md_" + os.path.basename(cfg).replace(".cfg", ""))
+    cmd = java + ["-cp", TLC_CP, "tlc2.TLC", "-workers", str(workers), "-metadir", md, "-cleanup", "-noGenerateSpecTE",
+                  "-config", cfg, tla]
+    e = dict(os.environ)
+    e.pop("JAVA_TOOL_OPTIONS", None)
+    of = os.path.join(wd, os.path.basename(cfg).replace(".cfg", "") + ".out")
+    t0 = time.time()
+    try:
+        with open(of, "w") as fh:
+            p = subprocess.run(cmd, cwd=wd, env=e, stdout=fh, stderr=subprocess.STDOUT, timeout=timeout)
+    except subprocess.TimeoutExpired:
+        raise ToolError(f"TLC timeout after {timeout}s: {cfg}")
+    finally:
+        shutil.rmtree(md, ignore_errors=True)
+    log(f"[tlc] {os.path.basename(cfg)} rc={p.returncode} {time.time() - t0:.1f}s")
+    n = 0
+    tail = []
+    ok = False
+    with open(of, errors="replace") as fh, open(out_path, "w") as out:
+        for line in fh:
+            m = _REPLAY.match(line)
+            if m:
+                out.write(_unescape(m.group(1)) + "\n")
+                n += 1
+            else:
+                if "No error has been found" in line:
+                    ok = True
+                tail.append(line)
+                if len(tail) > 400:
+                    del tail[:200]
+    text = "".join(tail)
+    if p.returncode != 0 and not ok:
+        log(text[-4000:])
+        raise ToolError(f"generator failed: {os.path.basename(cfg)} rc={p.returncode}")
+    os.remove(of)
+    return n, stats(text)
+
+
 _MISMATCH = re.compile(r'^<<"MISMATCH", "(.*)">>\s*$')
 
 
